@@ -1,7 +1,7 @@
 (* C07 property theorems ONLY (each closed by an already proved lemma) + assumptions. *)
 From Coq Require Import List NArith Bool Arith Lia.
 From Coq Require Import Reals.
-From RV Require Import C06.Model C06.Index C06.Cadence C06.CadenceR C06.Writer C07.Crash C07.Prefix C07.Restart C07.RestartEq C07.Attach.
+From RV Require Import Common.Num C06.Model C06.Index C06.Cadence C06.CadenceR C06.CadenceNum C06.Writer C07.Crash C07.Prefix C07.Restart C07.RestartEq C07.Attach.
 Import ListNotations.
 Open Scope N_scope.
 
@@ -94,11 +94,24 @@ Theorem C07_crash_image_le8 : forall c h fs0 ds d k, (k <= 8)%nat ->
   crash_image (archive c h fs0 ds) (append_trace c h fs0 ds d) k = archive c h fs0 ds.
 Proof. exact crash_image_le8. Qed.
 
+(* interval / walltime cadence, BOTH directions of time (sign = +1 for dt > 0, -1 for dt < 0), any arithmetic (the reals of
+   the theorems, the binary64 of the library): the snapshots of an uninterrupted run over the heartbeats a ++ b are those over
+   a followed by those of a run over b STARTED FROM THE THRESHOLD REACHED AFTER a.  That threshold is what the last snapshot
+   stores (C06_snapshot_stores_live_schedule) and what re-attaching with the same interval keeps
+   (C07_attach_same_cadence_keeps_state): so crash + restart from that snapshot + re-attach + run on = the uninterrupted run.
+   An attach that resets the threshold (next := t) breaks exactly this equation. *)
+Theorem C07_restart_cadence_any_direction : forall (T : Type) (Nm : Num T) sign I a b next,
+  run_thr Nm sign I next (a ++ b) =
+  (fst (run_thr Nm sign I next a) ++ fst (run_thr Nm sign I (snd (run_thr Nm sign I next a)) b),
+   snd (run_thr Nm sign I (snd (run_thr Nm sign I next a)) b)).
+Proof. intros. apply run_thr_app. Qed.
+Print Assumptions C07_restart_cadence_any_direction.
+
 (* ---- corners excluded by hypotheses, and what the code does there (checked by tools/c07.py on every run):
    * crash during the FIRST write (no archive A yet): C07_first_snapshot_cut gives 'no snapshot exposed' for cuts before
-     the END field; for cuts inside the last 12 bytes snapshot 0 is exposed.  In both cases the model's write_trace (as the
-     code) returns None on the next append: nothing is ever stored again (open known finding
-     restart-after-first-write-crash; the refused appends also leak a FILE*: failed-append-leaks-descriptor).
+     the END field: write_trace (as the code) then returns None on every later append - refused with a warning, the file is
+     left alone (accepted: there is no intact snapshot to restart from).  For cuts inside the last 12 bytes snapshot 0 is
+     exposed and write_trace completes the all-zero first trailer and appends as usual (3b30990; model == library bytes).
    * small_d / index bounds (< 2^32) and the unsigned reading of the int32 trailer members: archives with offset_next,
      offset_prev, index or a field size replaced by 0x7fffffff, 0x80000000, 0xffffffff, 2^40, 2^63, 2^64-16, 2^64-1 are
      opened by the library without crash or hang and exactly as open_archive predicts (correspondence 'integer limits').
